@@ -83,6 +83,8 @@ class Executor(object):
         self.events = []
         self.assume_feasible = False
         self.debug_merge = None
+        self.pin_consts = False
+        self.fp_mode = False
         self.candidates = []
         self.debug_ic = bool(__import__('os').environ.get('DEBUG_IC'))
 
@@ -273,6 +275,8 @@ class Executor(object):
 
     def implied_const(self, st, v, w, sg):
         """if the path condition forces v to a single value return it (two solver queries), else None"""
+        if not self.pin_consts:
+            return None
         t = tobv(v, w)
         key = ('ic', tuple(x.get_id() for x in st.pc), t.get_id())
         if key in self.feas_cache:
@@ -735,6 +739,8 @@ class Executor(object):
             w1, s1 = int_info(self.prog, ins['xtype'])
             if w1 != 64 or not s1:
                 x = int_convert(x, w1, s1, 64, True)
+            if self.fp_mode:
+                return FFP(z3.fpSignedToFP(RNE, tobv(x, 64), F64))
             return FInt(x, None)
         if k1 == 'float' and k2 == 'int':
             x = force(x)
@@ -745,6 +751,9 @@ class Executor(object):
                 return canon(int(x), w2, s2)
             if isinstance(x, FInt):
                 return int_convert(x.v, 64, True, w2, s2)
+            if isinstance(x, FFP):
+                self.notes.add('float->int conversion of a bit-precise value: in-range assumed (checked by harness bounds)')
+                return int_convert(z3.fpToSBV(z3.RTZ(), x.t, z3.BitVecSort(64)), 64, True, w2, s2)
             h = self.intr.get('#f2i')
             if h:
                 return h(self, x, w2, s2)
